@@ -15,6 +15,7 @@ PREFER = {
     5: "slips in time and unit arithmetic (RX window times taken from the wrong reference point, ms vs s at particular values, wrapping or saturating arithmetic at large delays or late timers, lora-modulation symbol / air-time arithmetic used for receive timeouts); slips in bookkeeping across MANY sessions (third join, re-join after expiry, ABP then OTAA, a session restored and then re-joined); Class C state that survives a re-join, an error or a disable / enable; the join path (DevNonce handling across attempts, JoinAccept of 17 vs 33 bytes, CFList types per region, accept heard in RX2 only); how confirmed uplinks, NoAck and session expiry are reported by each front-end; public getters / setters (set_datarate, set_adr, get_fcnt_up, ready_to_send_data, take_downlink) that leave the device in an inconsistent state when called at a particular moment; and lora-phy slips that depend on the ORDER of prepare / start / complete calls the LoRaWAN adapter really issues (including after a receive timeout, after an error, and when switching between continuous and single reception).",
     6: "whatever you judge the best-hidden: first list for yourself every function reachable from the property's code anchors that NONE of the earlier ideas touches, and pick your three changes there; favour code paths that need two or three unusual conditions at once (a particular region AND front-end AND history), arithmetic or table entries exercised only at one extreme value, and error or early-return branches.",
     7: "changes whose effect crosses a module boundary (a helper whose contract is subtly changed and which is used at several call sites of which only one needs the old contract); changes that depend on the device's const generics or board constants (radio buffer size N, downlink queue depth D, MAX_RADIO_POWER / ANTENNA_GAIN, the Timings values) at unusual but legal values; changes that only show on the SECOND occurrence of something (second LinkADRReq block in a session, second join with other credentials, second confirmed downlink in a row, a sticky answer already pending when another one arrives, the second restore of a session); changes in what happens AFTER an error was returned to the application (the next call after Err(Radio), after NotJoined, after PayloadTooLarge, after SessionExpired, after NoJoinAccept); changes in defaults that are only used when the network never sends a setting; for lora-phy: what the driver does with interrupt flags that arrive together or late (stale flags of the previous operation, two flags in one status read), the order of the steps inside init / cold start for one board option, and the adapter's handling of a call repeated without an intervening prepare.",
+    8: "the ENVIRONMENT side of the seams: changes that only show for values a radio / timer / RNG / application implementation may legally return or pass but that a test double rarely produces - rx_single / rx_continuous reporting length 0 or exactly the buffer size, RxQuality with extreme SNR / RSSI (-128, 127), tx() returning 0 or a very large on-air time, Timings with lead time 0 or larger than the RX delay, receive windows lasting a second or more, an RNG that returns 0, u32::MAX or the same value every time, FPort 0 / 1 / 223, empty or maximum-size application payloads, a confirmed uplink sent again, set_datarate / set_adr called with the value already in force, the same call made twice in a row (join twice, set_session twice, rxc_listen dropped and called again), take_downlink never called so that the downlink queue stays full; for lora-phy the chip side: status bytes with reserved bits set, IRQ flags that were not asked for, a packet of length 0 or 255, BUSY staying high longer than usual, the IRQ line already high when the wait starts. Assume that an automated simulator with reference models of the protocol is watching the device through its radio, timer and RNG seams: prefer changes whose violation such a tool would plausibly not think of provoking.",
 }
 props = {}
 for l in open('/verif/properties.jsonl'):
